@@ -114,7 +114,7 @@ def compare(ctx, key, what, a, b, cond, wsum, wit, shift=0.0):
     return True
 
 
-def make_setup(ctx, rng, mode, n_models, nb, resolved=False):
+def make_setup(ctx, rng, mode, n_models, nb, resolved=False, n_dist=7):
     d = ctx.newdir('c11')
     names = gen.model_names(rng, n_models)
     wav = gen.band_wavelengths(rng, nb)
@@ -146,7 +146,7 @@ def make_setup(ctx, rng, mode, n_models, nb, resolved=False):
             conv = conv[:, -1:, :] * (aps[None, :, None] / aps[-1]) ** pw
         gen.write_grid_v1(d, names, bn, wav, conv, apertures=aps, aperture_dependent=True, logd_step=0.1, flux_unit=funits)
         theta = np.array([float(gen.loguniform(rng, aps[0] * 1.01, aps[-1] if not resolved else aps[2])) for _ in range(nb)]) / 1000.0
-        dr = (1.0, 10 ** 0.55)
+        dr = (1.0, 10 ** (0.1 * (n_dist - 1) - 0.05))          # n_dist trial distances with the package's step of 0.1
     return dict(dir=d, names=names, wav=wav, bn=bn, law=law, k=k, conv=conv, aps=aps, theta=theta, dr=dr, mode=mode,
                 lw=lw, lc=lc, funits=funits)
 
@@ -191,13 +191,20 @@ def run(ctx):
     ctx.require_events('Fitter.fit:post', 'pair:filter-permutation', 'pair:model-permutation', 'pair:flux-scaling', 'pair:history',
                        'history:same-flags-other-errors', 'history:two-live-fitters', 'pair:filter-permutation:remove_resolved',
                        'history:several-live-fitters-on-one-package', 'pair:filter-permutation:v2', 'pair:model-permutation:v2', 'source-arrays-edited-in-place')
-    ctx.require_regimes('source:placeholder-in-plot-only-slot', 'mode:2d', 'mode:3d', 'history:remove_resolved-band-dependent', 'history:v2-memmap')
+    ctx.require_regimes('shape:models-equal-filters', 'shape:distances-equal-filters', 'source:placeholder-in-plot-only-slot', 'mode:2d', 'mode:3d', 'history:remove_resolved-band-dependent', 'history:v2-memmap')
     n_sets = 1 if ctx.quick else 4
     for iset in range(n_sets):
         for mode in ('2d', '3d'):
             ctx.regime('mode:' + mode)
             nb = 6
-            st = make_setup(ctx, rng, mode, n_models=8, nb=nb)
+            # the sizes are laid out by shard so that the axes of the arrays involved coincide in length in some runs and differ in others:
+            # as many models as filters, as many trial distances as filters, as many models as distances
+            n_mod_, n_dist_ = [(8, 7), (6, 6), (7, 7), (6, 7)][(ctx.shard + iset) % 4]
+            if n_mod_ == nb:
+                ctx.regime('shape:models-equal-filters')
+            if mode == '3d' and n_dist_ == nb:
+                ctx.regime('shape:distances-equal-filters')
+            st = make_setup(ctx, rng, mode, n_models=n_mod_, nb=nb, n_dist=n_dist_)
             k = st['k']
             base = gen.make_fitter(st['bn'], st['theta'], st['dir'], st['law'], (-5.0, 40.0), st['dr'])
             sources = [draw_source(rng, st) for _ in range(6)]
